@@ -214,6 +214,23 @@ class Wf:
                     for b in range(K):
                         e = z3.And(bz(r.present), r.vals["source"].v == a + 1, r.vals["sink"].v == b + 1)
                         cons.append(z3.Implies(e, rank[a] < rank[b]))
+        # I8: a file that a step produces (edge step -> file) was created by that step: outputs are
+        # declared by their producer (define_step / amend_step), or lost their creator when detached
+        for a in range(K):
+            for b in range(K):
+                e = z3.And(self.dep_edge(a, b), bz(self.steps[a].present), bz(self.files[b].present))
+                cons.append(z3.Implies(e, z3.Or(bz(self.nodes[b].vals["creator"].n), self.creator_is(b, a))))
+        # I9: roles.  An attached file that some step produces is in an output or volatile state; an
+        # attached file that no step produces is in a static state.
+        FS = FileState
+        for b in range(K):
+            produced = z3.Or(*[z3.And(self.dep_edge(a, b), bz(self.steps[a].present)) for a in range(K)])
+            st_b = self.files[b].vals["state"].v
+            out_states = z3.Or(st_b == FS.PLANNED.value, st_b == FS.BUILT.value, st_b == FS.OUTDATED.value, st_b == FS.VOLATILE.value)
+            static_states = z3.Or(st_b == FS.UNCONFIRMED.value, st_b == FS.MISSING.value, st_b == FS.CONFIRMED.value)
+            att = z3.And(bz(self.files[b].present), self.nodes[b].vals["detached"].v == 0)
+            cons.append(z3.Implies(z3.And(att, produced), out_states))
+            cons.append(z3.Implies(z3.And(att, z3.Not(produced)), static_states))
         # I4: attached output of a SUCCEEDED step is BUILT or VOLATILE
         for a in range(K):
             for b in range(K):
